@@ -299,3 +299,38 @@ def exact_fraction(c):
         return None
     fr = fo / fi
     return fr.numerator, fr.denominator
+
+
+# ------------------------------------------------------------------ known finding F-PH1: calibrated symptom (design-probes/fph1/fph1_sweep*.py)
+# Worst measured stop-band shortfall (dB above 2^-bits) of the end-to-end response, phase_response swept over (0, 25] in steps of 0.5 and
+# the mirrored settings, 14 ratios whose plan has a dft stage with < 256 taps (1->6 ... 1->48, 3->32, 5->48) and 1->64 ... 1->256 (L = 16 .. 64
+# post stages), engines cr64 and cr64s (identical to 0.01 dB).  The worst case per precision is always one of 1->16 / 1->20 / 1->24.
+FPH1_WORST_DB = [(28.0, 6.60), (28.5, 9.06), (29.0, 11.47), (30.0, 14.00), (31.0, 17.76), (32.0, 21.66), (32.5, 23.56), (33.0, 23.56)]
+FPH1_MARGIN_DB = 1.5            # for phases between the half-percent steps and ratios outside the swept set
+FPH1_BAND2_WORST_DB = 1.30      # 25 < min(phase, 100 - phase) < 30: the tail of the same defect (precision >= 30; 32 bits, 1->20, phase 25.5)
+FPH1_BAND2_MARGIN_DB = 0.70
+
+
+def fph1_config(bits, phase):
+    f = min(phase, 100 - phase)
+    return bits >= 28 and 0 < f < 30
+
+
+def fph1_plan(stages):
+    """a dft stage with fewer than 64 taps per output phase (num_taps < 64 x max(4, L): 256 taps for L <= 4)"""
+    return any(s["kind"] == "dft" and int(s["numTaps"]) < 64 * max(4, int(s["L"])) for s in stages)
+
+
+def fph1_allowance_db(bits, phase):
+    """largest stop-band shortfall (dB above 2^-bits) that still is known finding F-PH1 for this precision and phase setting:
+    the worst measured value (piecewise linear between the swept precisions) plus the margin; None outside the signature"""
+    if not fph1_config(bits, phase):
+        return None
+    if min(phase, 100 - phase) > 25:
+        return FPH1_BAND2_WORST_DB + FPH1_BAND2_MARGIN_DB
+    t = FPH1_WORST_DB
+    b = min(max(bits, t[0][0]), t[-1][0])
+    for (b0, w0), (b1, w1) in zip(t, t[1:]):
+        if b0 <= b <= b1:
+            return w0 + (w1 - w0) * (b - b0) / (b1 - b0) + FPH1_MARGIN_DB
+    return t[-1][1] + FPH1_MARGIN_DB
